@@ -205,6 +205,40 @@ Proof.
 Qed.
 
 (* ================================================================== *)
+(* the schedule                                                        *)
+(* ================================================================== *)
+
+(* a node handles a list of messages in order *)
+Fixpoint steps (r : raft) (ms : list msg) : Res raft :=
+  match ms with
+  | [] => Ok r
+  | m :: t => x <- step r m ;; steps (fst x) t
+  end.
+
+(* the messages of a queue addressed to [id] *)
+Definition to_peer (id : N) (ms : list msg) : list msg := filter (fun m => m_to m =? id) ms.
+
+(* one lock-step round between a leader L and a follower F:
+   1. every message L has queued for F is delivered to F, in order (L's queue is then
+      emptied: what it holds for other peers is of no concern here);
+   2. every reply F has queued for L is delivered to L, in order (F's queue is emptied);
+   3. both nodes tick once.
+   Persistence is not modelled: at this level (Raft, below RawNode) replies are queued
+   at once, and nothing in the exchange reads [persisted]. *)
+Definition pair_round (L F : raft) : Res (raft * raft) :=
+  F1 <- steps F (to_peer (r_id F) (r_msgs L)) ;;
+  L1 <- steps (L <| r_msgs := [] |>) (to_peer (r_id L) (r_msgs F1)) ;;
+  L2 <- tick L1 ;;
+  F2 <- tick (F1 <| r_msgs := [] |>) ;;
+  Ok (fst L2, fst F2).
+
+Fixpoint rounds (n : nat) (L F : raft) : Res (raft * raft) :=
+  match n with
+  | O => Ok (L, F)
+  | S k => x <- pair_round L F ;; rounds k (fst x) (snd x)
+  end.
+
+(* ================================================================== *)
 (* 6.2 the follower                                                    *)
 (* ================================================================== *)
 
@@ -1199,6 +1233,145 @@ Proof.
       split; [intros _ E; congruence|].
       split; [intros _ _ _; rewrite (mu_key _ _ S5); exact Hmu2|].
       intros E; rewrite Hty in E; discriminate E.
+Qed.
+
+(* ================================================================== *)
+(* 6.4 sequences of messages                                           *)
+(* ================================================================== *)
+
+(* responses produced while the follower's frontier moves from a to c: each one is
+   truthful at the frontier reached when it was produced *)
+Inductive resp_chain : N -> list msg -> N -> Prop :=
+| rc_nil a : resp_chain a [] a
+| rc_cons a b c m ms : a <= b -> resp_ok b m -> resp_chain b ms c -> resp_chain a (m :: ms) c.
+
+Lemma resp_chain_le a ms c : resp_chain a ms c -> a <= c.
+Proof. induction 1; lia. Qed.
+
+Lemma qmsg_ok_mono a a' m : a <= a' -> qmsg_ok a m -> qmsg_ok a' m.
+Proof.
+  intros Hle [H|(A & B & C0 & D & E & G)]; [left; exact H|right]. unfold snd_hb. repeat split; auto. lia.
+Qed.
+
+Lemma follower_frame_refl F : follower_frame F F.
+Proof. unfold follower_frame. destruct F; reflexivity. Qed.
+
+Lemma follower_frame_trans A B C : follower_frame A B -> follower_frame B C -> follower_frame A C.
+Proof.
+  unfold follower_frame. intros H1 H2. rewrite H2. rewrite H1 at 1. destruct A; reflexivity.
+Qed.
+
+(* the follower handles a queue of leader messages *)
+Lemma follower_steps : forall q a F F',
+  FInv a F -> Forall (qmsg_ok a) q -> steps F q = Ok F' ->
+  exists a' resps,
+    a <= a' /\ FInv a' F' /\ follower_frame F F' /\
+    r_msgs F' = r_msgs F ++ resps /\ resp_chain a resps a' /\
+    (q <> [] -> r_election_elapsed F' = 0) /\
+    (q = [] -> F' = F) /\
+    (forall x, In x q -> snd_app x -> exists rep, In rep resps /\ answers x rep) /\
+    (forall x, In x q -> m_type x = MsgHeartbeat ->
+       exists rep, In rep resps /\ m_type rep = MsgHeartbeatResponse).
+Proof.
+  induction q as [|m rest IH]; intros a F F' HF Hq H; cbn [steps] in H.
+  - inversion H; subst F'. exists a, []. split; [lia|]. split; [exact HF|].
+    split; [apply follower_frame_refl|]. split; [rewrite app_nil_r; reflexivity|].
+    split; [constructor|]. split; [congruence|]. split; [reflexivity|].
+    split; intros x [].
+  - inv_bind H. destruct x as [F1 c1]. cbn [fst] in H.
+    inversion Hq as [|? ? Hm Hrest]; subst.
+    destruct (follower_step a F m F1 c1 HF Hm Hx)
+      as (a1 & rep & L1 & HF1 & Fr1 & E1 & M1 & R1 & An1 & Hb1).
+    assert (Hrest1 : Forall (qmsg_ok a1) rest).
+    { eapply Forall_impl; [|exact Hrest]. intros y. apply qmsg_ok_mono. exact L1. }
+    destruct (IH a1 F1 F' HF1 Hrest1 H)
+      as (a2 & resps & L2 & HF2 & Fr2 & M2 & Ch2 & E2 & _ & An2 & Hb2).
+    exists a2, (rep :: resps). split; [lia|]. split; [exact HF2|].
+    split; [eapply follower_frame_trans; eassumption|].
+    split; [rewrite M2, M1, <- app_assoc; reflexivity|].
+    split; [econstructor; [exact L1|exact R1|exact Ch2]|].
+    split.
+    { intros _. destruct rest as [|m2 rest2].
+      - cbn [steps] in H. inversion H; subst F'. exact E1.
+      - apply E2. discriminate. }
+    split; [discriminate|].
+    split.
+    + intros x [->|Hin] Hs.
+      * exists rep. split; [left; reflexivity|apply An1; exact Hs].
+      * destruct (An2 x Hin Hs) as (r2 & I2 & A2). exists r2. split; [right; exact I2|exact A2].
+    + intros x [->|Hin] Hty.
+      * exists rep. split; [left; reflexivity|]. apply Hb1.
+        destruct Hm as [(Sty & _)|Hh]; [rewrite Sty in Hty; discriminate Hty|exact Hh].
+      * destruct (Hb2 x Hin Hty) as (r2 & I2 & A2). exists r2. split; [right; exact I2|exact A2].
+Qed.
+
+Lemma PrInv_mono b b' pr : b <= b' -> PrInv b pr -> PrInv b' pr.
+Proof. intros Hle [P1 P2 P3 P4 P5 P6 P7 P8]. constructor; auto. lia. Qed.
+
+Lemma mu_le_of_step p q : (mu q < mu p \/ pkey q = pkey p) -> mu q <= mu p.
+Proof. intros [H|H]; [lia|]. rewrite (mu_key _ _ H). lia. Qed.
+
+(* the leader handles the follower's replies *)
+Lemma leader_steps : forall resps b0 b1,
+  resp_chain b0 resps b1 -> b1 <= ll_last LL ->
+  forall L pr L', LCore L -> get_pr L f = Some pr -> PrInv b0 pr -> steps L resps = Ok L' ->
+  exists pr' new,
+    lfr L L' /\ r_msgs L' = r_msgs L ++ new /\ Forall (fun x => m_to x = f -> snd_app x) new /\
+    get_pr L' f = Some pr' /\ PrInv b1 pr' /\
+    matched pr <= matched pr' /\ (mu pr' < mu pr \/ pkey pr' = pkey pr) /\
+    (forall rep, In rep resps -> m_type rep = MsgAppendResponse -> m_reject rep = false ->
+       m_index rep <= matched pr') /\
+    (forall rep, In rep resps -> m_type rep = MsgAppendResponse -> m_reject rep = true ->
+       (pr_state pr = Replicate \/ next_idx pr - 1 = m_index rep) -> mu pr' < mu pr) /\
+    ((exists rep, In rep resps /\ m_type rep = MsgHeartbeatResponse) -> matched pr < ll_last LL ->
+       mu pr' < mu pr \/ exists x, In x new /\ obl pr' x).
+Proof.
+  induction 1 as [a|a b c m ms Hab Hm Hch IH]; intros Hc L pr L' HC Hg HP H; cbn [steps] in H.
+  - inversion H; subst L'. exists pr, []. split; [apply lfr_refl|].
+    split; [rewrite app_nil_r; reflexivity|]. split; [constructor|]. split; [exact Hg|].
+    split; [exact HP|]. split; [lia|]. split; [right; reflexivity|].
+    split; [intros rep []|]. split; [intros rep []|]. intros (rep & [] & _).
+  - inv_bind H. destruct x as [L1 c1]. cbn [fst] in H.
+    pose proof (resp_chain_le _ _ _ Hch) as Hbc.
+    destruct (leader_step_resp b L pr m L1 c1 HC Hg (PrInv_mono _ _ _ Hab HP) ltac:(lia) Hm Hx)
+      as (pr1 & S1 & S2 & S3 & S4 & S5 & S6 & S7 & S8 & S9).
+    destruct S2 as (new1 & N1 & N2).
+    destruct (IH Hc L1 pr1 L' (lfr_LCore _ _ S1 HC) S3 S4 H)
+      as (pr' & new2 & T1 & T2 & T3 & T4 & T5 & T6 & T7 & T8 & T9 & T10).
+    pose proof (mu_le_of_step _ _ S6) as Hle1. pose proof (mu_le_of_step _ _ T7) as Hle2.
+    exists pr', (new1 ++ new2).
+    split; [eapply lfr_trans; eassumption|].
+    split; [rewrite T2, N1, app_assoc; reflexivity|].
+    split; [apply Forall_app; auto|]. split; [exact T4|]. split; [exact T5|]. split; [lia|].
+    split.
+    { destruct S6 as [S6|S6]; [left; lia|]. destruct T7 as [T7|T7].
+      - left. rewrite <- (mu_key _ _ S6). exact T7.
+      - right. congruence. }
+    split.
+    { intros rep [->|Hin] Hty Hrj.
+      - specialize (S7 Hty Hrj). lia.
+      - apply T8; assumption. }
+    split.
+    { intros rep [->|Hin] Hty Hrj Hcond.
+      - specialize (S8 Hty Hrj Hcond). lia.
+      - destruct S6 as [S6|S6]; [lia|].
+        destruct (pkey_inv _ _ S6) as (K1 & K2 & K3).
+        rewrite <- (mu_key _ _ S6). apply (T9 rep Hin Hty Hrj).
+        destruct Hcond as [Hcond|Hcond]; [left; congruence|].
+        destruct (pi_state _ _ S4) as [Es|Es]; [right|left; exact Es].
+        rewrite (K3 Es). exact Hcond. }
+    intros (rep & [->|Hin] & Hty) Hlt.
+    + destruct (S9 Hty Hlt) as (x & Ex & Ox).
+      assert (Hnew1 : new1 = [x]).
+      { rewrite N1 in Ex. apply app_inv_head in Ex. exact Ex. }
+      destruct T7 as [T7|T7]; [left; lia|].
+      right. exists x. split; [subst new1; apply in_or_app; left; left; reflexivity|].
+      eapply obl_key; [symmetry; exact T7|exact Ox].
+    + destruct S6 as [S6|S6]; [left; lia|].
+      destruct (pkey_inv _ _ S6) as (K1 & K2 & K3).
+      destruct (T10 (ex_intro _ rep (conj Hin Hty)) ltac:(lia)) as [Hd|(x & Ix & Ox)].
+      * left. rewrite <- (mu_key _ _ S6). exact Hd.
+      * right. exists x. split; [apply in_or_app; right; exact Ix|exact Ox].
 Qed.
 
 End Pair.
